@@ -58,6 +58,6 @@ Next == /\ verdict = "todo"
 Spec == Init /\ [][Next]_<<t, inv, verdict>>
 Inv == verdict # "WRONG"
 \* anti-vacuity: the universe is not empty and contains every row count with every remainder for both widths
-ASSUME \A r \in Rows \ {11, 16} : \A w \in Widths : \A rem \in 0..(w - 1) :
+ASSUME (BigN % 64 = 0 /\ BigN % 9 = 0 /\ BigN % 35 = 0 /\ MaxLen >= 64) => \A r \in Rows \ {11} : \A w \in Widths : \A rem \in 0..(w - 1) :
           \E x \in Universe : x.k = "AvxRadix" /\ x.fs[1] = r /\ x.w = w /\ x.ch[1].len % w = rem
 =============================================================================
